@@ -18,6 +18,26 @@ DIFFABLE = {'string', 'array', 'object'}
 TYPES = {'str': str, 'list': list, 'dict': dict, 'int': int, 'float': float, 'bool': bool}
 
 
+NESTED = {'array': ([1], [1.0]), 'object': ({'k': 1}, {'k': 1.0})}      # equal under ==, different JSON documents
+
+
+def _num(x):
+    return type(x) if isinstance(x, (bool, int, float)) else None
+
+
+def _shallow(l, r):
+    # semantics of nbdime.diffing.generic.compare_strict (anchored by C02 R02.1): == plus number type at the top level only
+    return l == r and _num(l) is _num(r)
+
+
+def _deep(l, r):
+    if isinstance(l, dict) and isinstance(r, dict):
+        return l.keys() == r.keys() and all(_deep(l[k], r[k]) for k in l)
+    if isinstance(l, list) and isinstance(r, list):
+        return len(l) == len(r) and all(_deep(a, b) for a, b in zip(l, r))
+    return _shallow(l, r)
+
+
 class Unknown(Exception):
     pass
 
@@ -55,9 +75,9 @@ def _ev(e, env, consts):
         l, r = _ev(e.left, env, consts), _ev(e.comparators[0], env, consts)
         op = e.ops[0]
         if isinstance(op, ast.Eq):
-            return l == r and type(l) is type(r)
+            return l == r
         if isinstance(op, ast.NotEq):
-            return not (l == r and type(l) is type(r))
+            return l != r
         if isinstance(op, ast.Is):
             return l is r
         if isinstance(op, ast.IsNot):
@@ -86,7 +106,7 @@ def _ev(e, env, consts):
             return getattr(recv, e.func.attr)(*args)
         if d in ('compare_strict', 'strict_equal') and len(e.args) == 2:
             l, r = _ev(e.args[0], env, consts), _ev(e.args[1], env, consts)
-            return env['__equal__'] if ('avalue' in ast.unparse(e) and 'bvalue' in ast.unparse(e)) else (l == r)
+            return _deep(l, r) if d == 'strict_equal' else _shallow(l, r)
         raise Unknown(ast.unparse(e))
     raise Unknown(ast.unparse(e))
 
@@ -106,12 +126,17 @@ def check_add_mime_diff(ctx, rule):
     # statements: locals assigned from expressions, then an if-chain / early returns
     classes = {'application/json': set(REPR), 'application/vnd.plotly.v1+json': set(REPR), 'text/plain': {'string', 'array'}, 'image/png': {'string', 'array'}}
     n = 0
+    bad, good = {}, {}
     for mime, kinds in classes.items():
         for ka in sorted(kinds):
             for kb in sorted(kinds):
-                for equal in ([True, False] if ka == kb else [False]):
+                for equal in (([True] if ka == 'null' else [True, False]) + (['nested'] if ka in NESTED and 'json' in mime else []) if ka == kb else [False]):
                     va = REPR[ka]
-                    vb = REPR[kb] if equal else (OTHER[kb] if ka == kb else REPR[kb])
+                    vb = REPR[kb] if equal is True else (OTHER[kb] if ka == kb else REPR[kb])
+                    if equal == 'nested':
+                        va, vb = NESTED[ka]
+                    label = {True: ' (equal)', False: '', 'nested': ' (differing only in the type of a nested number)'}[equal]
+                    equal = equal is True
                     env = {pkey: mime, pa: va, pb: vb, 'avalue': va, 'bvalue': vb, '__equal__': equal}
                     outcome = None
 
@@ -155,7 +180,14 @@ def check_add_mime_diff(ctx, rule):
                     if what == 'nothing' and not equal:
                         ok = False
                         why = 'two different values (%s vs %s) under %s produce no diff entry' % (ka, kb, mime)
-                    if not ok or (ka, kb) in (('number', 'number'), ('object', 'object'), ('string', 'string')):
-                        ctx.inst(rule, NB + ':add_mime_diff', '%s: %s vs %s%s -> %s' % (mime, ka, kb, ' (equal)' if equal else '', what), ok, why,
-                                 outcome[1] if outcome else fn)
+                    if not ok:
+                        bad.setdefault((mime, what), []).append(('%s vs %s%s' % (ka, kb, label), why, outcome[1] if outcome else fn))
+                    else:
+                        good[mime] = good.get(mime, 0) + 1
+    for (mime, what), lst in sorted(bad.items()):
+        ctx.inst(rule, NB + ':add_mime_diff', '%s: wrong arm `%s`' % (mime, what), False,
+                 '%s [%d pair(s): %s]' % (lst[0][1], len(lst), '; '.join(x[0] for x in lst[:12])), lst[0][2])
+    for mime, k in sorted(good.items()):
+        if not any(m == mime for m, _ in bad):
+            ctx.inst(rule, NB + ':add_mime_diff', '%s: %d kind pair(s)' % (mime, k), True, 'each reaches an arm that accepts it and none loses a difference', fn)
     ctx.inst(rule, NB + ':add_mime_diff', '%d (mimetype class, kind, kind, equal?) combinations evaluated' % n, True, 'domain = what the nbformat mimebundle schema admits', None, nontrivial=False)
